@@ -18,6 +18,7 @@ func init() { register("C09", c09) }
 func c09(c *Ctx) {
 	defer c.truncationIsAnError()
 	defer c09pathAgreement(c)
+	defer c09deleteAll(c)
 	defer c.hashIsOfInput()
 	P, R := c.P, c.R
 	R.Explain("R09.1", "T-GUARDED/T-PAIR: in WriteControlledStore.Get/Set/Delete the call into the wrapped store is dominated by acquireSyncRef(id) for the same id and by RLock (Get) / Lock (Set, Delete) on that entry's lock, with the unlock and releaseSyncRef deferred; only the two *Unchecked methods bypass it.")
@@ -821,4 +822,72 @@ func pathExprWhy(v ssa.Value, pathFld *types.Var, depth int) string {
 		return ""
 	}
 	return "the file name is not built by filepath.Join (directly or in a helper of the store)"
+}
+
+// c09deleteAll (R09.10): a batch operation of the store that reports success has handled every id.
+func c09deleteAll(c *Ctx) {
+	P, R := c.P, c.R
+	R.Explain("R09.10", "deleted ids are gone: in the methods of package store that take a list of ids (Delete / DeleteUnchecked of every implementation), a loop over the ids that is left early (break, or a jump out of the body that is not a return) cannot be followed by a success: no return of the nil error - a nil constant, or a phi with a nil edge taken after the early exit - is reachable from the early-exit edge.  Otherwise the ids after the first failing one are silently kept while the caller is told they were removed.")
+	n := 0
+	for _, f := range c.funcsInPkg("store") {
+		if f.Parent() != nil || f.Signature.Recv() == nil || f.Signature.Params().Len() == 0 || !f.Signature.Variadic() {
+			continue
+		}
+		if nm := engine.BaseName(f); nm != "Delete" && nm != "DeleteUnchecked" {
+			continue
+		}
+		ids := f.Params[len(f.Params)-1]
+		for _, h := range f.Blocks {
+			body := engine.LoopBody(h)
+			if body == nil {
+				continue
+			}
+			reads := false
+			for b := range body {
+				for _, in := range b.Instrs {
+					if ia, ok := in.(*ssa.IndexAddr); ok && engine.AnyBackward(ia.X, engine.FlowOpts{Loads: true}, func(x ssa.Value) bool { return x == ssa.Value(ids) }) {
+						reads = true
+					}
+				}
+			}
+			if !reads {
+				continue
+			}
+			n++
+			bad := ""
+			for b := range body {
+				if b == h {
+					continue
+				}
+				for _, s := range b.Succs {
+					if body[s] {
+						continue
+					}
+					// early exit b -> s: which returns can follow, and do they report success?
+					reach := engine.BlocksReachableFrom(s)
+					for _, ret := range engine.Returns(f) {
+						if !reach[ret.Block()] {
+							continue
+						}
+						lr := engine.LastResult(ret)
+						if lr == nil {
+							continue
+						}
+						if engine.IsNilConst(lr) {
+							bad = P.Pos(ret.Pos())
+						}
+						if phi, ok := lr.(*ssa.Phi); ok {
+							for i, e := range phi.Edges {
+								if engine.IsNilConst(e) && (reach[phi.Block().Preds[i]] || phi.Block().Preds[i] == s) && !body[phi.Block().Preds[i]] {
+									bad = P.Pos(ret.Pos())
+								}
+							}
+						}
+					}
+				}
+			}
+			R.Check(bad == "", "R09.10", c.name(f)+"|loop over ids", P.Pos(firstPosOf(h)), "an early exit of the loop is never followed by a nil error", "after leaving the loop over the ids early the method can still return a nil error ("+bad+"): the remaining ids are not deleted although success is reported")
+		}
+	}
+	R.Min("R09.10", "loops over id lists in Delete methods of package store", n, 2)
 }
